@@ -558,26 +558,39 @@ pub fn reset_span_map() {
     proc_macro2::extra::invalidate_current_thread_spans();
 }
 
-pub fn read(text: &str) -> Result<Out, String> {
-    reset_span_map();
-    let file = syn::parse_file(text).map_err(|e| format!("output is not a Rust file: {e}"))?;
-    let mut out = Out {
-        structs: vec![],
-        consts: vec![],
-        asserts: vec![],
-        groups: BTreeMap::new(),
-        has_bind_groups_mod: false,
-        bind_groups_struct_fields: vec![],
-        pipeline_layout_groups: None,
-        push_ranges: None,
-        source: SourceKind::Missing,
-        items: vec![],
-        fns: vec![],
-        mods: vec![],
-        impls: vec![],
-        set_bind_groups_params: None,
-    };
-    for it in &file.items {
+/// `"lit"`, `concat!("a", "b", ..)` (also nested and path-qualified) evaluated to the string they denote
+fn const_str(e: &syn::Expr) -> Option<String> {
+    match e {
+        syn::Expr::Lit(syn::ExprLit { lit: syn::Lit::Str(s), .. }) => Some(s.value()),
+        syn::Expr::Paren(p) => const_str(&p.expr),
+        syn::Expr::Group(g) => const_str(&g.expr),
+        syn::Expr::Macro(m) if m.mac.path.segments.last().map(|s| s.ident == "concat").unwrap_or(false) => {
+            let args = m.mac.parse_body_with(syn::punctuated::Punctuated::<syn::Expr, syn::Token![,]>::parse_terminated).ok()?;
+            let mut s = String::new();
+            for a in args.iter() {
+                s.push_str(&const_str(a)?);
+            }
+            Some(s)
+        }
+        _ => None,
+    }
+}
+
+fn source_kind(e: &syn::Expr) -> SourceKind {
+    if let Some(s) = const_str(e) {
+        return SourceKind::Literal(s);
+    }
+    match e {
+        syn::Expr::Macro(m) if m.mac.path.segments.last().map(|s| s.ident == "include_str").unwrap_or(false) => match syn::parse2::<syn::LitStr>(m.mac.tokens.clone()) {
+            Ok(l) => SourceKind::Include(l.value()),
+            Err(_) => SourceKind::Unknown(ts(e)),
+        },
+        other => SourceKind::Unknown(ts(other)),
+    }
+}
+
+fn read_items(items: &[syn::Item], out: &mut Out) {
+    for it in items {
         match it {
             syn::Item::Struct(s) => {
                 out.items.push(ItemInfo { kind: "struct", name: idn(&s.ident), lines: lines_of(s.span()) });
@@ -615,14 +628,7 @@ pub fn read(text: &str) -> Result<Out, String> {
                     }
                 }
                 if name == "SOURCE" {
-                    out.source = match &*c.expr {
-                        syn::Expr::Lit(syn::ExprLit { lit: syn::Lit::Str(s), .. }) => SourceKind::Literal(s.value()),
-                        syn::Expr::Macro(m) if m.mac.path.is_ident("include_str") => match syn::parse2::<syn::LitStr>(m.mac.tokens.clone()) {
-                            Ok(l) => SourceKind::Include(l.value()),
-                            Err(_) => SourceKind::Unknown(ts(&c.expr)),
-                        },
-                        other => SourceKind::Unknown(ts(other)),
-                    };
+                    out.source = source_kind(&c.expr);
                 }
                 out.consts.push(OutConst {
                     name,
@@ -636,14 +642,27 @@ pub fn read(text: &str) -> Result<Out, String> {
                 out.items.push(ItemInfo { kind: "mod", name: m.ident.to_string(), lines: lines_of(m.span()) });
                 out.mods.push(m.ident.to_string());
                 if m.ident == "bind_groups" {
-                    read_bind_groups_mod(m, &mut out);
+                    read_bind_groups_mod(m, out);
+                } else if let Some((_, inner)) = &m.content {
+                    // an inline module whose items are glob re-exported next to it (`pub use m::*;`)
+                    // holds items of this namespace: read them as if they were written here
+                    let reexported = items.iter().any(|i| match i {
+                        syn::Item::Use(u) if matches!(u.vis, syn::Visibility::Public(_)) => {
+                            let t = u.tree.to_token_stream().to_string().replace(' ', "");
+                            t == format!("{}::*", m.ident) || t == format!("self::{}::*", m.ident)
+                        }
+                        _ => false,
+                    });
+                    if reexported {
+                        read_items(inner, out);
+                    }
                 }
             }
             syn::Item::Fn(f) => {
                 let name = f.sig.ident.to_string();
                 out.items.push(ItemInfo { kind: "fn", name: name.clone(), lines: lines_of(f.span()) });
                 if name == "create_pipeline_layout" {
-                    read_pipeline_layout(f, &mut out);
+                    read_pipeline_layout(f, out);
                 }
                 if name == "set_bind_groups" {
                     let mut ps = Vec::new();
@@ -665,6 +684,28 @@ pub fn read(text: &str) -> Result<Out, String> {
             }
         }
     }
+}
+
+pub fn read(text: &str) -> Result<Out, String> {
+    reset_span_map();
+    let file = syn::parse_file(text).map_err(|e| format!("output is not a Rust file: {e}"))?;
+    let mut out = Out {
+        structs: vec![],
+        consts: vec![],
+        asserts: vec![],
+        groups: BTreeMap::new(),
+        has_bind_groups_mod: false,
+        bind_groups_struct_fields: vec![],
+        pipeline_layout_groups: None,
+        push_ranges: None,
+        source: SourceKind::Missing,
+        items: vec![],
+        fns: vec![],
+        mods: vec![],
+        impls: vec![],
+        set_bind_groups_params: None,
+    };
+    read_items(&file.items, &mut out);
     Ok(out)
 }
 
